@@ -422,7 +422,7 @@ func genQuery(t *rapid.T, kind string, pos []V3, idx []int) Query {
 			for i, v := range vs {
 				p, sum = add(p, scl(v, w[i])), sum+w[i]
 			}
-			if sum <= 0 {
+			if sum < 1e-3 {
 				return vs[0]
 			}
 			return scl(p, 1/sum)
@@ -1231,6 +1231,6 @@ func runBVH(c BVHCase, o *vh.Obs) *vh.Failure {
 // ----------------------------------------------------------------
 
 func TestC16(t *testing.T) {
-	vh.Drive(t, vh.Spec[Case]{Name: "octree", Quick: 60000, Thorough: 1800000, Gen: genCase, Run: runCase})
-	vh.Drive(t, vh.Spec[BVHCase]{Name: "bvh", Quick: 20000, Thorough: 600000, Gen: genBVH, Run: runBVH})
+	vh.Drive(t, vh.Spec[Case]{Name: "octree", Quick: 400000, Thorough: 12000000, Gen: genCase, Run: runCase})
+	vh.Drive(t, vh.Spec[BVHCase]{Name: "bvh", Quick: 120000, Thorough: 3600000, Gen: genBVH, Run: runBVH})
 }
